@@ -16,7 +16,10 @@ wt = os.path.join(d, "repo")
 try:
     subprocess.run(["git", "-C", "/repo", "worktree", "add", "--detach", "-q", wt, rev], check=True)
     for p in patches:
-        subprocess.run(["git", "-C", wt, "apply", p], check=True)
+        # seeded patches were made against the HEAD of their day; fall back to reduced context when later fixes moved lines
+        if subprocess.run(["git", "-C", wt, "apply", p], stderr=subprocess.DEVNULL).returncode:
+            if subprocess.run(["git", "-C", wt, "apply", "-C1", "--recount", p], stderr=subprocess.DEVNULL).returncode:
+                subprocess.run(["patch", "-p1", "-F3", "-s", "-d", wt, "-i", p], check=True)
     env = dict(os.environ, PYTHONPATH=os.path.join(wt, "src") + (os.pathsep + os.environ["PYTHONPATH"] if os.environ.get("PYTHONPATH") else ""),
                RSIM_REUSE_SRC=os.path.join(wt, "src") + "/", RSIM_NO_EVIDENCE=os.environ.get("RSIM_NO_EVIDENCE", "1"), MUTANT_REPO=wt)
     rc = subprocess.run(cmd, env=env).returncode
